@@ -144,9 +144,22 @@ async def process_resource_event(
                 )
                 if applied and matched:
                     local_logger.debug("Handling cycle is finished, waiting for new changes.")
+
+                # Carry the rejected transformations (HTTP 422) over to the next cycle -- except for
+                # the framework's own finalizer edits: they are decided anew in every cycle from
+                # the then-actual state of the object, so a carried one would only repeat an outdated
+                # decision (e.g. release the object while it is again required to be blocked).
+                if remaining_patch is not None:
+                    carried_fns = [fn for fn in remaining_patch.fns if not _is_finalizer_fn(fn)]
+                    remaining_patch = patches.Patch(fns=carried_fns) if carried_fns else None
                 memory.remaining_patch = remaining_patch
                 return resource_version
     return None
+
+
+def _is_finalizer_fn(fn: patches.PatchFn) -> bool:
+    return (isinstance(fn, functools.partial) and
+            fn.func in (finalizers.block_deletion, finalizers.allow_deletion))
 
 
 class _Causes(NamedTuple):
